@@ -9,5 +9,5 @@ Extraction "../build/ocaml/model.ml"
   find_vclass find_rclass x_richcmp x_unrelated x_guard_range x_guard_constraint x_range_vclass x_hashable x_frozen
   x_all_vclasses x_all_rclasses x_vclass_name x_rclass_name
   g_cmp g_vctor g_constraints_from_string g_constraints_to_string g_from_string g_constraint_from_string
-  xs_find xs_valid xs_ctor xs_pair xs_names
+  xs_find xs_valid xs_ctor xs_pair xs_names x_sv_next x_sv_stable
   x_split_constraint x_py_is_ascii x_remove_spaces x_lower x_split_c x_strip_set x_lstrip_set x_partition_c.
